@@ -62,6 +62,8 @@ class Track:
         self.pos = 0         # position in the recording for streaming blocks
         self.speech = 0      # samples of the recording given in the current / last utterance
         self.cfg = {"jsgf": "none", "fsg": "none"}   # grammar keys of the decoder's configuration: none|good|bad
+        self.created = False  # made by decoder_create, not initialised yet
+        self.nocfg = False    # ... and without a configuration (decoder_create(NULL))
 
     def eff_gram(self):
         return self.cfg["jsgf"] if self.cfg["jsgf"] != "none" else self.cfg["fsg"]
@@ -205,6 +207,37 @@ def typed_config_call(rng, safe_only):
     return rng.choice(["unset", "setnull"]) + " " + k
 
 
+# generator-side (untrusted) mirror of `keepsHyp` / `keepsJson` / `keepsCmn` of Model/ProtocolApi.lean, by harness op word:
+# a borrowed pointer is believed dead after any call on its decoder that is not listed.  Being wrong only costs
+# coverage (the model re-classifies the transcript: reading a borrow the model dropped is out-of-protocol).
+KEEP_HYP = {"nframes", "times", "getcmn", "setcmn", "cmnhold", "lookup", "lookuphold", "retain", "logfile", "proc", "seg",
+            "segnext", "segfree", "hypnext", "hypfree", "hypseg", "iterhold", "alinext", "alichild", "aligoto", "alifree",
+            "albuild", "aladd", "alpop", "alfree", "alprop", "lnodenext", "lnodefree", "llink", "llinknext", "llinkfree",
+            "cfgvalidate", "cfglog", "freenull", "buse", "struse", "strfree"}
+KILL_JSON = {"json", "jsonhold", "start", "reinit", "reinitcfg", "free", "init", "initcfg", "create"}
+KEEP_CMN = (KEEP_HYP - {"getcmn", "setcmn", "proc"}) | {"hyp", "hyphold", "prob", "nbest", "lattice", "latretain", "latwalk",
+                                                        "latfree", "latbest", "latprune", "lattrav", "lnode", "align",
+                                                        "alretain", "aliter", "json", "jsonhold", "addword"}
+
+
+def borrow_survives(kind, opword, line):
+    w = line.split()
+    if opword in ("cfg", "cfgk"):
+        sub = w[1] if opword == "cfg" else (w[2] if len(w) > 2 else "")
+        quiet = sub in ("get", "typeof", "json")
+    elif opword == "subretain":
+        quiet = True
+    else:
+        quiet = None
+    if kind == "hyp":
+        return quiet if quiet is not None else opword in KEEP_HYP
+    if kind == "json":
+        return opword not in KILL_JSON
+    if kind == "cmn":
+        return quiet if quiet is not None else opword in KEEP_CMN
+    return True
+
+
 def gen_history(rng, stats, maxcalls=40, profile=None):
     """one history: list of call lines.  Never emits an out-of-protocol call (see module docstring of the
     Lean model for the classification)."""
@@ -220,12 +253,14 @@ def gen_history(rng, stats, maxcalls=40, profile=None):
         def __setattr__(self, name, val):
             setattr(tracks[Cur.i], name, val)
     t = Cur()
-    sh = {"cfg": {}, "lmath": set(), "fe": set(), "feat": set(), "ml": {}, "wild": set()}   # held sub-objects (shared tables)
+    sh = {"cfg": {}, "lmath": set(), "fe": set(), "feat": set(), "ml": {}, "wild": set(),   # held sub-objects (shared tables)
+          "bor": {}, "str": set()}     # borrowed strings: slot -> (kind, instance, hyp slot) ; owned strings: slots
     objctr = [0]
     ops = []
     if EXTENDED:
-        profile = profile or rng.weighted([("mixed", 28), ("queries", 14), ("lifecycle", 10), ("outoforder", 10), ("longaudio", 8),
-                                           ("lattice", 10), ("config", 6), ("subobj", 5), ("twodec", 7), ("overlong", 3)])
+        profile = profile or rng.weighted([("mixed", 24), ("queries", 12), ("lifecycle", 9), ("outoforder", 9), ("longaudio", 8),
+                                           ("lattice", 9), ("config", 6), ("subobj", 5), ("twodec", 7), ("overlong", 3),
+                                           ("apiwide", 12)])
     else:
         profile = profile or rng.weighted([("mixed", 46), ("queries", 18), ("lifecycle", 14), ("outoforder", 14), ("longaudio", 8)])
     stats["profiles"][profile] = stats["profiles"].get(profile, 0) + 1
@@ -235,6 +270,12 @@ def gen_history(rng, stats, maxcalls=40, profile=None):
     def emit(s, kind):
         ops.append(("@1 " if Cur.i == 1 else "") + s)
         stats["calls"][kind] = stats["calls"].get(kind, 0) + 1
+        # borrowed pointers of this decoder die unless the call is known to leave them alone
+        opw = s.split()[0]
+        for k in list(sh["bor"]):
+            bk, bi, _ = sh["bor"][k]
+            if bi == Cur.i and not borrow_survives(bk, opw, s):
+                del sh["bor"][k]
 
     def init_args(g):
         a = g
@@ -435,18 +476,27 @@ def gen_history(rng, stats, maxcalls=40, profile=None):
     while len(ops) < n:
         if profile == "twodec" and rng.chance(0.35):
             Cur.i = 1 - Cur.i          # the next calls go to the other decoder instance
-        alive = t.alive
+        alive = t.alive and not t.created
         inutt = alive and t.utt == "s"
         w = []
         usable_cfg = [k for k, o in sh["cfg"].items() if not o.get("wild")]
-        if not alive:
+        if t.alive and t.created:
+            # allocated and configured, not initialised: only re-initialisation, release, retention, the log file and
+            # the configuration are calls of the protocol
+            w += [("reinit", 24), ("free", 5), ("retain", 2), ("logfile", 2), ("freenull", 1),
+                  ("reinitcfg", 6 if usable_cfg else 0)]
+            if not t.nocfg:
+                w += [("cfg", 3), ("cfgtyped", 3), ("cfg-gram", 3), ("cfgvalidate", 3), ("cfgexpand", 2), ("cfglog", 2),
+                      ("cfgsetany", 2), ("subretaincfg", 2)]
+        elif not alive:
             # decoder gone (or never created): a new decoder, the null-argument calls, and everything that works on
             # objects the history still holds
-            w += [("init", 30), ("freenull", 3), ("stop", 6 if profile != "twodec" else 2), ("initcfg", 25 if usable_cfg else 0)]
+            w += [("init", 30), ("freenull", 3), ("stop", 6 if profile != "twodec" else 2), ("initcfg", 25 if usable_cfg else 0),
+                  ("create", 7)]
         elif not inutt:
             w += [("start", 14 if t.search else 3)]
             w += [("end-ooo", 3), ("proc-ooo", 5)]
-            w += [("gram", 7), ("aligntext", 4), ("fsg", 3), ("addword1", 2), ("reinit", 3), ("cfg-gram", 2)]
+            w += [("gram", 7), ("aligntext", 4), ("fsg", 3), ("addword1", 2), ("reinit", 3), ("cfg-gram", 2), ("weirdwords", 3)]
         else:
             if not t.full:
                 w += [("proc", 30 if t.blocks < 6 else 6)]
@@ -457,7 +507,9 @@ def gen_history(rng, stats, maxcalls=40, profile=None):
             w += [("hyp", 6), ("prob", 2), ("nframes", 2), ("seg", 6), ("nbest", 5), ("lattice", 4), ("latbest", 2),
                   ("latretain", 2), ("align", 5), ("alretain", 2), ("aliter", 4), ("json", 6), ("getcmn", 2), ("setcmn", 2),
                   ("lookup", 2), ("addword0", 3), ("cfg", 2), ("cfgtyped", 2), ("times", 1), ("retain", 2), ("free", 4),
-                  ("freenull", 1), ("logfile", 1), ("subretain", 2)]
+                  ("freenull", 1), ("logfile", 1), ("subretain", 2),
+                  ("hyphold", 3), ("jsonhold", 2), ("cmnhold", 2), ("lookuphold", 2), ("cfgvalidate", 1), ("cfgexpand", 1),
+                  ("cfglog", 1), ("cfgsetany", 1)]
             if not inutt:
                 w += [("reinitfeat", 1), ("mllrapply", 1 + 4 * len(sh["ml"])), ("reinitcfg", 3 if usable_cfg else 0)]
         has_lat = alive or bool(t.lat)
@@ -470,6 +522,9 @@ def gen_history(rng, stats, maxcalls=40, profile=None):
               ("cfgwild", 1 * len(sh["cfg"])), ("cfgretain", len(sh["cfg"])),
               ("mllrread", 1), ("mllrfree", 2 * len(sh["ml"])),
               ("albuild", 1 if alive else 0), ("aladd", 3 * len(t.built)), ("alpop", 3 * len(t.built))]
+        w += [("buse", 5 * len(sh["bor"])), ("struse", 2 * len(sh["str"])), ("strfree", 2 * len(sh["str"])),
+              ("iterhold", 3 * len([k for k in t.hyp if t.hyp[k]])), ("alprop", 2 * len(t.aln)),
+              ("cfgparsenew", 1), ("cfgvalidatek", len(sh["cfg"])), ("cfglogk", len(sh["cfg"]))]
         w += [("segnext", 6 * len(t.seg)), ("segfree", 2 * len(t.seg)), ("hypnext", 6 * len(t.hyp)),
               ("hypfree", 2 * len(t.hyp)), ("hypseg", 4 * len(t.hyp)), ("alinext", 6 * len(t.ali)),
               ("alichild", 4 * len(t.ali)), ("alifree", 2 * len(t.ali)), ("aligoto", 2 * len(t.ali)),
@@ -487,6 +542,10 @@ def gen_history(rng, stats, maxcalls=40, profile=None):
         elif profile == "config":
             w = [(a, b * (8 if a in ("cfg", "cfgtyped", "cfg-gram", "reinit", "cfgnew", "cfgk", "cfgwild", "subretain",
                                      "reinitcfg", "cfgretain", "initcfg") else 1)) for a, b in w]
+        elif profile == "apiwide":
+            w = [(a, b * (7 if a in ("create", "hyphold", "jsonhold", "cmnhold", "lookuphold", "buse", "struse", "strfree", "iterhold",
+                                     "alprop", "cfgvalidate", "cfgexpand", "cfglog", "cfgsetany", "cfgparsenew", "cfgvalidatek",
+                                     "cfglogk", "nbest", "hypnext") else 1)) for a, b in w]
         elif profile in ("subobj", "twodec"):
             w = [(a, b * (6 if a in ("subretain", "subuse", "subfree", "cfgnew", "cfgretain", "initcfg", "reinitcfg", "logfile",
                                      "mllrread", "mllrapply", "mllrfree", "reinitfeat", "free") else 1)) for a, b in w]
@@ -504,7 +563,9 @@ def gen_history(rng, stats, maxcalls=40, profile=None):
         if inutt and t.speech < 10000 and not t.full:
             w = [(a, b * 3 if a == "proc" else b) for a, b in w]
         if not EXTENDED:
-            NEW = ("albuild", "aladd", "alpop", "cfgtyped", "logfile", "subretain", "reinitfeat", "mllrapply", "reinitcfg", "latbestk", "latprune", "lattrav",
+            NEW = ("create", "hyphold", "jsonhold", "cmnhold", "lookuphold", "buse", "struse", "strfree", "iterhold", "alprop",
+                   "cfgvalidate", "cfgexpand", "cfglog", "cfgsetany", "cfgparsenew", "cfgvalidatek", "cfglogk", "subretaincfg",
+                   "albuild", "aladd", "alpop", "cfgtyped", "logfile", "subretain", "reinitfeat", "mllrapply", "reinitcfg", "latbestk", "latprune", "lattrav",
                    "lnode", "lnodenext", "lnodefree", "llink", "llinknext", "llinkfree", "cfgnew", "subuse", "subfree", "cfgk",
                    "cfgwild", "cfgretain", "mllrread", "mllrfree", "initcfg")
             w = [(a, 0 if a in NEW else b) for a, b in w]
@@ -515,6 +576,85 @@ def gen_history(rng, stats, maxcalls=40, profile=None):
             break
         elif c == "init":
             do_init()
+        elif c == "create":
+            g = rng.choice(["jsgf", "fsg", "none", "nojsgf", "null", "null"])
+            emit("create " + (init_args(g) if g != "null" else "null"), "create" if g != "null" else "create-null")
+            t.alive, t.refs, t.utt, t.search = True, 1, "i", False
+            t.created, t.nocfg = True, g == "null"
+            t.cfg = {"jsgf": "good" if g == "jsgf" else ("bad" if g == "nojsgf" else "none"), "fsg": "good" if g == "fsg" else "none"}
+            t.blocks, t.full = 0, False
+        elif c in ("hyphold", "jsonhold", "cmnhold"):
+            k = rng.below(NSLOT)
+            if c == "jsonhold":
+                lvl = rng.choice([0, 0, 1, 2])
+                emit(f"jsonhold {k} {lvl}", "jsonhold")
+                if lvl:
+                    t.invalidate("align")
+            else:
+                emit(f"{c} {k}", c)
+            sh["bor"][k] = ({"hyphold": "hyp", "jsonhold": "json", "cmnhold": "cmn"}[c], Cur.i, None)
+            if c != "cmnhold" and inutt and not t.full and rng.chance(0.5):
+                # the family "a result string stays readable while more audio is processed"
+                fmt, clip, off, ln = audio_block(False)
+                emit(f"proc {fmt} {clip} {off} {ln} 0 0", "proc")
+                t.blocks += 1
+                t.dagfresh = False
+                t.invalidate("align")
+                if k in sh["bor"]:
+                    emit(f"buse {k}", "buse")
+        elif c == "iterhold":
+            j = rng.choice([k for k in t.hyp if t.hyp[k]])
+            k = rng.below(NSLOT)
+            emit(f"iterhold {k} {j}", "iterhold")
+            sh["bor"][k] = ("iter", Cur.i, j)
+        elif c == "buse":
+            emit(f"buse {rng.choice(sorted(sh['bor']))}", "buse")
+        elif c == "lookuphold":
+            fr = [k for k in range(NSLOT) if k not in sh["str"]]
+            if fr:
+                k = rng.choice(fr)
+                wk = rng.choice(["known", "known", "alt", "filler", "unknown", "empty", "new0", "long"])
+                emit(f"lookuphold {k} {wk}", "lookuphold")
+                if wk in ("known", "alt", "filler"):
+                    sh["str"].add(k)
+        elif c in ("struse", "strfree"):
+            k = rng.choice(sorted(sh["str"]))
+            emit(f"{c} {k}", c)
+            if c == "strfree":
+                sh["str"].discard(k)
+        elif c == "alprop":
+            emit(f"alprop {rng.choice(sorted(t.aln))}", "alprop")
+        elif c in ("cfgvalidate", "cfgexpand", "cfglog"):
+            emit(f"{c} -1", c)
+        elif c in ("cfgvalidatek", "cfglogk"):
+            emit(f"{c[:-1]} {rng.choice(sorted(sh['cfg']))}", c[:-1] + "-held")
+        elif c == "cfgsetany":
+            r = rng.below(4)
+            if r == 0:
+                k = rng.choice(sorted(SAFE_F))
+                emit(f"cfg setany {k} {rng.choice(['float', 'str'])} {rng.choice(SAFE_F[k])}", "cfg-setany")
+            elif r == 1:
+                emit(f"cfg setany {rng.choice(SAFE_B)} {rng.choice(['bool', 'int', 'float'])} {rng.below(2)}", "cfg-setany")
+            elif r == 2:
+                k = rng.choice(sorted(SAFE_I))
+                emit(f"cfg setany {k} {rng.choice(['int', 'str'])} {rng.choice(SAFE_I[k])}", "cfg-setany")
+            else:
+                emit(f"cfg setany {rng.choice(['nosuchkey', 'nosuchkey', 'hmm'])} str {rng.choice(['EMPTY', '7', 'junk'])}", "cfg-setany")
+        elif c == "cfgparsenew":
+            fr = [k for k in range(NSLOT) if k not in sh["cfg"]]
+            if fr:
+                k = rng.choice(fr)
+                kind = rng.choice(["ok", "ok", "unknown", "empty", "trunc", "null"])
+                emit(f"cfgparsenew {k} {kind}", "cfgparsenew")
+                if kind == "ok":
+                    # no acoustic model is named: never given to a decoder
+                    sh["cfg"][k] = {"jsgf": "none", "fsg": "none", "wild": True}
+        elif c == "subretaincfg":
+            fr = [k for k in range(NSLOT) if k not in sh["cfg"]]
+            if fr:
+                k = rng.choice(fr)
+                emit(f"subretain cfg {k}", "subretain-cfg")
+                sh["cfg"][k] = t.cfg
         elif c == "initcfg":
             k = rng.choice(usable_cfg)
             obj = sh["cfg"].pop(k)
@@ -569,6 +709,31 @@ def gen_history(rng, stats, maxcalls=40, profile=None):
             if k not in FSG_BAD:
                 t.search = True
                 t.invalidate("result")
+        elif c == "weirdwords":
+            # family: words whose spellings use the whole byte range the dictionary accepts (DEL, control bytes, quote,
+            # backslash, bytes >= 0x80) are added, aligned against speech, and the result is asked for in every form
+            for i2 in range(4):
+                emit(f"addword weird{i2} {rng.choice(['ok', 'one', 'long'])} 0", "addword")
+            emit("aligntext weird", "aligntext-ok")
+            t.search = True
+            t.invalidate("result")
+            emit("start", "start")
+            t.utt, t.blocks, t.full, t.everutt, t.pos = "s", 0, False, True, 0
+            t.invalidate("result"); t.invalidate("align")
+            fu = 1 if rng.chance(0.4) else 0
+            ln = rng.choice([16000, 24000, 36000, GOLEN])
+            emit(f"proc {'f32' if rng.chance(0.2) else 'i16'} go 0 {ln} 0 {fu}", "proc-full" if fu else "proc")
+            t.blocks, t.full, t.speech, t.dagfresh = 1, fu == 1, ln, False
+            if rng.chance(0.85):
+                emit("end", "end")
+                t.utt = "e"
+            lv = [0, 1, 2]
+            rng.shuffle(lv)
+            for lvl in lv[:rng.range(1, 3)]:
+                emit(f"json {lvl}", f"json{lvl}")
+                if lvl:
+                    t.invalidate("align")
+            emit("hyp", "hyp")
         elif c == "aligntext":
             k = rng.choice(ALIGN_BAD) if rng.chance(0.2) else rng.choice(ALIGN_OK)
             emit("aligntext " + k, "aligntext-" + ("bad" if k in ALIGN_BAD else "ok"))
@@ -590,9 +755,13 @@ def gen_history(rng, stats, maxcalls=40, profile=None):
             emit("reinit " + (k if k in ("null", "same") else init_args(k)), "reinit-" + k)
             if k in ("jsgf", "fsg", "none"):
                 t.cfg = {"jsgf": "good" if k == "jsgf" else "none", "fsg": "good" if k == "fsg" else "none"}
-            t.search = t.eff_gram() == "good"
-            t.utt = "i"
-            t.invalidate("result"); t.invalidate("align")
+            if t.created and t.nocfg and k in ("null", "same"):
+                pass            # no configuration to initialise from: refused, still only created
+            else:
+                t.created = t.nocfg = False
+                t.search = t.eff_gram() == "good"
+                t.utt = "i"
+                t.invalidate("result"); t.invalidate("align")
         elif c == "cfg-gram":
             k, v, g = rng.choice([("jsgf", "@tests/data/goforward.gram", "good"), ("fsg", "@tests/data/goforward.fsg", "good"),
                                   ("jsgf", "NULL", "none"), ("fsg", "NULL", "none"),
@@ -674,6 +843,7 @@ def gen_history(rng, stats, maxcalls=40, profile=None):
             t.refs -= 1
             if t.refs == 0:
                 t.alive = False
+                t.created = t.nocfg = False
                 t.invalidate("result"); t.invalidate("align")
         elif c in ("segnext", "segfree"):
             k = rng.choice(sorted(t.seg))
@@ -688,6 +858,8 @@ def gen_history(rng, stats, maxcalls=40, profile=None):
             if c == "hypfree" or not t.hyp[k]:
                 emit(f"hypfree {k}", "hypfree-stale" if not t.hyp[k] else "hypfree")
                 del t.hyp[k]
+                for bk in [b for b, v in sh["bor"].items() if v == ("iter", Cur.i, k)]:
+                    del sh["bor"][bk]
             elif c == "hypnext":
                 for _ in range(rng.choice([1, 1, 2, 4])):
                     emit(f"hypnext {k}", "hypnext")
@@ -824,6 +996,7 @@ def gen_history(rng, stats, maxcalls=40, profile=None):
                         if obj is not t.cfg:
                             del sh["cfg"][k]
                         t.cfg = obj
+                        t.created = t.nocfg = False
                         t.search = t.eff_gram() == "good"
                         t.utt = "i"
                         t.invalidate("result"); t.invalidate("align")
@@ -883,7 +1056,7 @@ def gen_history(rng, stats, maxcalls=40, profile=None):
                     [pre + f"alfree {k}" for k in tr.aln] + [pre + f"lnodefree {k}" for k in tr.ln] + \
                     [pre + f"llinkfree {k}" for k in tr.ll] + [pre + "free"] * (tr.refs if tr.alive else 0)
         rest += [f"subfree cfg {k}" for k in sh["cfg"]] + [f"subfree {kd} {k}" for kd in ("lmath", "fe", "feat") for k in sh[kd]] + \
-                [f"mllrfree {k}" for k in sh["ml"]]
+                [f"mllrfree {k}" for k in sh["ml"]] + [f"strfree {k}" for k in sh["str"]]
         rng.shuffle(rest)
         for r in rest[:rng.range(0, len(rest))]:
             ops.append(r)
@@ -894,11 +1067,20 @@ def gen_history(rng, stats, maxcalls=40, profile=None):
 # ---------------------------------------------------------------------------------------------
 # running one history on the implementation
 
+class Ent(tuple):
+    """(call, ret, state) with the exported functions the call reached (`fns`, from the harness's counting wrappers)"""
+    fns = ()
+
+
 def parse_transcript(out):
     """-> list of (call, ret, state) ; the last entry has ret None when the process died inside the call"""
     res, cur = [], None
     for l in out.split("\n"):
-        if l.startswith("> "):
+        if l.startswith("*") and res and cur is None:
+            e = Ent(res[-1])
+            e.fns = tuple(l[1:].split())
+            res[-1] = e
+        elif l.startswith("> "):
             if cur is not None:
                 res.append((cur, None, None))
             cur = l[2:]
@@ -1032,6 +1214,31 @@ def to_model(call, ret, st):
 
     def src_of(x):
         return "dec" if x == "-1" else x
+    if op == "create":
+        if w[1] == "null":
+            return f"x create {inst} null"
+        return f"x create {inst} new " + " ".join(INIT_MAP[w[1]].split()[:2])
+    if op == "hyphold":
+        return f"x hyphold {inst} {w[1]} {b(ptr)}"
+    if op == "jsonhold":
+        return f"x jsonhold {inst} {w[1]} {w[2]} {b('ru=1' in ret)} {b(ptr)} {b(a_after)}"
+    if op == "cmnhold":
+        return f"x cmnhold {inst} {w[1]}"
+    if op == "iterhold":
+        return f"x iterhold {inst} {100 + int(w[2])} {w[1]} {b(ptr)}"
+    if op == "buse":
+        return f"x buse {w[1]}"
+    if op == "lookuphold":
+        return f"x lookuphold {inst} {w[1]} {b(ptr)}"
+    if op in ("struse", "strfree"):
+        return f"x {op} {w[1]}"
+    if op == "alprop":
+        return f"x alprop {inst} {w[1]}"
+    if op in ("cfgvalidate", "cfgexpand", "cfglog"):
+        tgt = f"dec {inst}" if w[1] == "-1" else f"held {w[1]}"
+        return f"x {op} {tgt}" + (f" {b(r0 == 'ok')}" if op == "cfgvalidate" else "")
+    if op == "cfgparsenew":
+        return f"x cfgparsenew {w[1]} {b(ptr)}"
     if op == "init":
         return f"init {inst} new " + INIT_MAP[w[1]]
     if op == "initcfg":
@@ -1053,6 +1260,14 @@ def to_model(call, ret, st):
             if v == "EMPTY":
                 return f"cfgcall {tgt} str 1 setstr empty"
             return f"cfggram {tgt} {b(cw[1] == 'jsgf')} {g}"
+        if cw[0] == "setany":
+            # config_set(c, key, &val, type): the type tag of the CALL selects the setter
+            tab = config_table()
+            kt = tab.get(cw[1], "unknown")
+            safe_key = cw[1] in SAFE_F or cw[1] in SAFE_B or cw[1] in SAFE_I or cw[1] in SAFE_S
+            ty = "str " + strval_class(cw[3]) if cw[2] == "str" else cw[2]
+            refused = kt == "unknown" or (cw[2] == "str" and not str_accepts(kt, cw[3]))
+            return f"x cfgsetany {tgt} {kt} {b(safe_key or refused)} {ty}"
         kt, mop, safe = config_call_model(cw)
         if mop is None:
             mop = f"parse {b(ptr)}"
@@ -1079,7 +1294,8 @@ def to_model(call, ret, st):
         return f"mllrfree {w[1]}"
     if op == "proc":
         adv = "adv=1" in ret
-        return D + f"proc {w[6]} {b(adv)}"
+        # c1: the acoustic model stands in ACMOD_PROCESSING after the block (a cepstral frame was consumed)
+        return ("c1 " if st_field(mine, "u") == "p" else "") + D + f"proc {w[6]} {b(adv)}"
     if op == "end":
         return D + f"end {b('adv=1' in ret)}"
     if op == "hyp":
@@ -1238,6 +1454,56 @@ def run_model(text):
     return r.returncode, r.stdout.decode(errors="replace"), r.stderr.decode(errors="replace")
 
 
+def word_tokens(cw):
+    """what the history knows about the word / phones of a decoder_add_word / decoder_lookup_word call (symbolic names of
+    harness/h_c09.c `word_text` / `phones_text`), for the model's prediction of the outcome (`Seen.addPred`, `Seen.lookupPred`):
+    the model, not the implementation, says whether the word is accepted / found"""
+    if cw[0] not in ("addword", "lookup", "lookuphold"):
+        return ""
+    wk = cw[2] if cw[0] == "lookuphold" else cw[1]
+    add = cw[0] == "addword"
+    if re.fullmatch(r"new\d+|weird\d+|long|paren|altnew", wk):
+        w = f"W fresh {wk} -"
+    elif wk.startswith("altofnew"):
+        w = f"W altof {wk} new{wk[8:]}"
+    elif wk in ("known", "filler"):
+        w = "W present - -"
+    elif wk in ("unknown", "empty") or (add and wk == "altmissing"):
+        w = "W absent - -"
+    else:
+        w = "W echo - -"          # `alt` (forward(2)): in some of the dictionaries used, not in others
+    pt = ""
+    if add:
+        pk = cw[2]
+        pt = "P valid " if pk in ("ok", "one", "sil", "spaces", "long") else ("P invalid " if pk in ("empty", "blank", "bad") else "P echo ")
+    return w + " " + pt
+
+
+_API_MAP = None
+
+
+def api_map():
+    """(executes: kind -> set of function names, excluded: name -> reason), printed by the model driver from the Lean
+    definitions `executes` / `excluded` of Model/ProtocolApi.lean"""
+    global _API_MAP
+    if _API_MAP is None:
+        rc, out, err = run_model("apimap\n")
+        if rc != 0 or "|" not in out:
+            raise RuntimeError("ssdriver c09 apimap failed: " + (err or out)[-300:])
+        a, _, bpart = out.strip().partition("|")
+        ex = {}
+        for ent in a.split(";"):
+            k, _, fs = ent.partition("=")
+            ex[k] = set(f for f in fs.split(",") if f)
+        excl = {}
+        for ent in bpart.split(";"):
+            if ent:
+                n, _, r = ent.partition(":")
+                excl[n] = r
+        _API_MAP = (ex, excl)
+    return _API_MAP
+
+
 def model_replay(tr):
     """run the model on a transcript; -> list of (index in tr, model call, model ret, model state, class)"""
     lines, idx = [], []
@@ -1255,6 +1521,14 @@ def model_replay(tr):
             m = to_model(call, ret, st)
         if m is None:
             continue
+        # observations the model uses only where it has no prediction of its own: the frame counter of each decoder
+        # after the call, the count an audio block returned
+        parts = (st or "").split(" || ")
+        fa = st_field(parts[0], "fr") if parts else None
+        fb = st_field(parts[1], "fr") if len(parts) > 1 else None
+        nr = re.match(r"n=(\d+)", ret or "")
+        cw = [x for x in call.split() if not x.startswith("@")]
+        m = f"F {fa or 0} {fb or 0} " + (f"N {nr.group(1)} " if nr and cw[0] == "proc" else "") + word_tokens(cw) + m
         lines.append(m)
         idx.append(i)
     rc, out, err = run_model("\n".join(lines) + "\n" if lines else "")
@@ -1274,9 +1548,21 @@ def compare(tr):
     """-> (divergences, classes) ; a divergence is (index, call, impl ret, impl state, model call, model ret,
     model state, class)"""
     div, classes = [], []
+    executes, _ = api_map()
     for i, m, mret, mst, cls in model_replay(tr):
         call, ret, st = tr[i]
-        classes.append((call, cls))
+        kind = (cls.split() + ["", "", ""])[2]
+        ce = Ent((call, cls))
+        ce.fns, ce.kind = (getattr(tr[i], "fns", ()) if ret is not None else ()), kind
+        ce.ret = mret
+        classes.append(ce)
+        if ret is not None and not cls.startswith("oop") and cls != "bad":
+            # the functions the call really reached must be among those the model's mapping names for its kind
+            extra = [f for f in getattr(tr[i], "fns", ()) if f not in executes.get(kind, ())]
+            if extra:
+                div.append((f"API mapping: a call of kind {kind} reached {extra}, which `executes` does not list", i, call, ret, st,
+                            m, mret, mst, cls))
+                break
         if cls.startswith("oop") or cls == "bad":
             div.append(("out-of-protocol call in transcript (generator/harness error)", i, call, ret, st, m, mret, mst, cls))
             break
@@ -1325,6 +1611,7 @@ def judge(c, binp, ops, label, stats, shrink=True):
             key = call.split()[0] + ":" + canon_ret(ret)
             stats["returns"][key] = stats["returns"].get(key, 0) + 1
     if kind is None and not div:
+        account_api(stats, tr, classes)
         return True
     if div and div[0][0].startswith("out-of-protocol"):
         c.oblige(f"generated history is inside the protocol ({label})", False, {"ops": ops, "at": div[0][1:]})
@@ -1404,7 +1691,29 @@ def truncate_at_oop(binp, ops, stats, max_rounds=4):
 
 def new_stats():
     return {"profiles": {}, "calls": {}, "blocks": {}, "classes": {}, "ooo": {}, "returns": {}, "failures": {},
-            "calls_executed": 0, "skipped_calls": 0}
+            "calls_executed": 0, "skipped_calls": 0, "kinds": {}, "kind_returns": {}, "kind_fns": {}, "fn_calls": {}}
+
+
+def account_api(stats, tr, classes):
+    """op-kind mix, return class per kind, functions reached per kind / in total (executed, in-protocol calls only)"""
+    for ce in classes:
+        cls = ce[1]
+        if cls.startswith("oop") or cls == "bad" or not getattr(ce, "kind", ""):
+            continue
+        k = ce.kind
+        stats["kinds"][k] = stats["kinds"].get(k, 0) + 1
+        stats["kind_fns"].setdefault(k, set()).update(ce.fns)
+        # return class the model predicts for the call (equal to the implementation's: the history replayed without divergence)
+        rc = {"ok": "ok", "void": "ok", "ptr": "ok", "count": "ok", "err": "documented-error", "null": "null"}.get(
+            getattr(ce, "ret", ""), "ok" if getattr(ce, "ret", "").startswith("rc=") else getattr(ce, "ret", "?"))
+        if cls.startswith("ooo"):
+            rc = "documented-error (listed out-of-order call)"
+        d = stats["kind_returns"].setdefault(k, {})
+        d[rc] = d.get(rc, 0) + 1
+    for e in tr:
+        if e[1] is not None and not e[1].startswith("skip"):
+            for f in getattr(e, "fns", ()):
+                stats["fn_calls"][f] = stats["fn_calls"].get(f, 0) + 1
 
 
 def check(c):
@@ -1485,6 +1794,7 @@ def check(c):
                     if ret and not ret.startswith("skip"):
                         key = call.split()[0] + ":" + canon_ret(ret)
                         stats["returns"][key] = stats["returns"].get(key, 0) + 1
+                account_api(stats, tr, classes)
             elif div and div[0][0].startswith("out-of-protocol"):
                 # still out-of-protocol after cutting several times: dropped, counted, no alarm
                 stats["generator_artefacts_dropped"] = stats.get("generator_artefacts_dropped", 0) + 1
@@ -1511,6 +1821,23 @@ def check(c):
              "exit, timeout or leak, and return class + protocol state equal the model's after every call "
              "(apart from listed known findings)", not unknown,
              {"failing_histories": len(bad), "failure_classes": stats["failures"]})
+    # --- the API surface: op kinds exercised, functions reached, mapping function <-> operation
+    executes, excluded = api_map()
+    NEVER = {"touch": "a decoder call without effect on the protocol state, kept for the base theorems; the harness has no such call"}
+    missing_kinds = sorted(k for k in executes if k not in NEVER and not stats["kinds"].get(k))
+    c.oblige("every kind of call of the model (Model/ProtocolApi.lean `OpKind`, apart from `touch`) was executed in-protocol on the "
+             "real library at least once", not missing_kinds, {"never_executed": missing_kinds})
+    class_a = sorted(set().union(*executes.values()))
+    unreached = sorted(f for f in class_a if not stats["fn_calls"].get(f))
+    c.oblige("every exported function the model claims to execute (class (a) of C09_api_total) was really called by the harness "
+             "(counting wrappers generated from the current headers) at least once", not unreached, {"never_called": unreached})
+    stray = sorted(f for f in stats["fn_calls"] if f in excluded)
+    c.oblige("no function of the exclusion list (class (b)) is called directly by the harness", not stray, {"called": stray})
+    not_reached_by_kind = {k: sorted(executes[k] - stats["kind_fns"].get(k, set())) for k in executes
+                           if k not in NEVER and executes[k] - stats["kind_fns"].get(k, set())}
+    # (the converse inclusion - every executed call reached only functions `executes` lists for its kind - is checked per
+    # call in `compare`; which listed functions a kind did not reach in THIS run depends on the data, e.g. a lattice node
+    # with two exits, and is reported, not demanded)
     nontrivial = sum(1 for h in hs if any(l.startswith("proc") for l in h))
     c.cov.update({"evaluations": n + ncorp, "distinct_nontrivial": len(distinct),
                   "rule": "random call histories (6-%d calls) over one decoder; distinct = distinct call lists; every history "
@@ -1525,7 +1852,13 @@ def check(c):
                   "generated_histories_cut_before_an_out_of_protocol_call": stats.get("generator_artefacts_truncated", 0),
                   "out_of_protocol_generator_artefacts_by_call": stats.get("generator_artefact_calls", {}),
                   "generated_histories_dropped_as_generator_artefacts": stats.get("generator_artefacts_dropped", 0),
-                  "failing_histories": len(bad), "corpus_cases": ncorp})
+                  "failing_histories": len(bad), "corpus_cases": ncorp,
+                  "op_kind_mix_executed_in_protocol": dict(sorted(stats["kinds"].items())),
+                  "return_class_by_op_kind_as_predicted_by_the_model": dict(sorted(stats["kind_returns"].items())),
+                  "api_functions_class_a": len(class_a), "api_functions_class_b_excluded": excluded,
+                  "api_function_call_counts": dict(sorted(stats["fn_calls"].items())),
+                  "op_kinds_never_generated_by_design": NEVER,
+                  "functions_listed_for_a_kind_but_not_reached_by_it_in_this_run": not_reached_by_kind})
 
 
 def replay(c, path):
